@@ -57,7 +57,7 @@
 (*     providers: no lock, no BEGIN statement, the DB-API connection opens *)
 (*     a transaction implicitly at the first statement.                    *)
 (***************************************************************************)
-EXTENDS Naturals, Sequences, FiniteSets, TLC
+EXTENDS PonyTxnConst, Naturals, Sequences, FiniteSets, TLC
 
 CONSTANTS
     NActors,        \* actor slots: initial threads + slots for fork children / recovery
@@ -83,9 +83,6 @@ MaxConn == NActors * ConnPer
 ConnIds == 1..MaxConn
 NoE     == "none"
 
-\* DB-API entry points at which a fault can be injected (scenario space of the harness).
-DbApiCalls    == {"connect", "cursor", "execute", "executemany", "commit", "rollback", "close"}
-SessionShapes == {"read-only", "optimistic write", "immediate", "serializable", "ddl", "generator", "nested"}
 
 VARIABLES
     th,         \* actor -> thread-local state (record below)
@@ -570,10 +567,10 @@ Release(a, l, l2) == /\ Obs(a, l)
                      /\ flags' = [flags EXCEPT !.badRelease = @ \/ lock[th[a].pid] # a]
                      /\ Upd(a, Goto(th[a], l2))
                      /\ UNCHANGED <<conns, pre, committed, faults, fowner, forks, npid, dead>>
-LockReleaseSetMode(a)  == Release(a, "ST9r", "ST10")
-LockReleaseCommit(a)   == Release(a, "PV1r", "PV2")
-LockReleaseRollback(a) == Release(a, "PR1r", "PR2")
-LockReleaseDrop(a)     == Release(a, "PD1r", "PD2")
+LockReleaseSetMode(a) == Lbl(th[a]) = "ST9r" /\ Release(a, "ST9r", "ST10")
+LockReleaseCommit(a) == Lbl(th[a]) = "PV1r" /\ Release(a, "PV1r", "PV2")
+LockReleaseRollback(a) == Lbl(th[a]) = "PR1r" /\ Release(a, "PR1r", "PR2")
+LockReleaseDrop(a) == Lbl(th[a]) = "PD1r" /\ Release(a, "PD1r", "PD2")
 
 DbModeCursor(a, out) == LET L == th[a] IN
     DbCall(a, "ST1", "cursor", L.cur, out, Goto(L, "ST2"), GotoX(L, "ST9", "dberr"), Same(L.cur))
